@@ -76,7 +76,8 @@ CLAIMED["C01"] = {
             "and Linearizer::emit_constraint: the emitted row together with what the grown context demands implies the source constraint (requirement chosen from the comparison, constant moved across with its sign). "
             "At model level the constraint loop of Linearizer::linearize (a statement slice of the real function) is proved to drain the queue and to end in a context whose demands (emitted rows, declared domains, derived box) imply EVERY constraint that was ever queued, "
             "wherever both sides are defined: emit_constraint puts the row into the context, the row together with the context implies the source constraint, and popping / lowering preserves the invariant. "
-            "NOT decided / assumed (listed in the evidence): logic reification and assertion lowering (their soundness is an ASSUMED contract of the loop unit), the converse direction (no source-feasible point is cut off; big-M constants large enough), "
+            "BOUNDED (labelled, not counted as proved): the logic lowerings are checked on the real Linearizer::linearize exhaustively per model - about 7800 single-constraint models over four Boolean variables (every connective pairwise over 18 shapes, third-level samples, asserted / denied / used as 0/1 values in comparisons), all 16 assignments, all values of the Boolean auxiliaries - in BOTH directions (nothing infeasible let in, nothing feasible cut off). "
+            "NOT decided / assumed deductively (listed in the evidence): logic reification and assertion lowering (their soundness is an ASSUMED contract of the loop unit; bounded check above), the converse direction (no source-feasible point is cut off; big-M constants large enough), "
             "domain publication after the loop, the equivalence between a sparse row and its dense coefficient vector (U08.coef gives the vector entry-wise), termination.",
     "note": "Trusted: prelude/f64_layer.rs (floats as exact extended reals), prelude/smap.rs (IndexMap<String,_> view), prelude/std_stubs.rs. BoundsAnalyzer::bounds_of is used through its contract, proved in U07.fwd. "
             "Rules: format! abstracted to opaque strings (R6), auxiliary counters abstracted (R21), masked arms end in a diverging stub.",
@@ -99,8 +100,10 @@ CLAIMED["C04"] = {
     "text": "For the MILP bridge (and auto_solver, which delegates to it) it is proved for ALL linear models that the problem handed to the library is exactly the model (column k = variable k with its objective coefficient, bounds and integrality; "
             "row j = constraint j term by term with the same relation and right-hand side; direction), and that a returned solution is the library's feasible point read back faithfully: one assignment per variable in order, "
             "integer and Boolean values exact, reported value = library objective + offset. optimal_value of the tableau path maps the sign flip and offset correctly. "
-            "NOT decided: feasibility inside the external solvers themselves (assumed contract), the good_lp/Clarabel bridges, named-row activities (calc_constraints), the name filtering of as_lp_solution.",
-    "note": _LIB + "Trusted preludes: f64_layer.rs, smap.rs, std_stubs.rs. Assumed: LpSolution::new field-wise construction, make_constraints_map_from_assignment.",
+            "LinearModel::calc_constraints / calc_objective are proved to report, for every row in order and under the row's own name, exactly that row's left-hand side at the given values, and the objective function at the values plus the offset (U04.act). "
+            "LpSolution::new is used through its contract, proved in U16.sol. "
+            "NOT decided: feasibility inside the external solvers themselves (assumed contract), the good_lp/Clarabel bridges, the filter of make_constraints_map_from_assignment (rows named __*), the name filtering of as_lp_solution.",
+    "note": _LIB + "Trusted preludes: f64_layer.rs, smap.rs, std_stubs.rs. Assumed: make_constraints_map_from_assignment (ensures true).",
     "technique": "Verus loop invariants over a ghost model of the microlp Problem/Solution on the extracted solve_milp_lp_problem_with",
     "design_ref": "DESIGN.md §5 C04",
 }
